@@ -1,36 +1,167 @@
 (* C07 property theorems only: each closed by `exact <lemma>` with Print Assumptions beneath.
-   The statements are the `*_statement` definitions of Proofs.v (spelled out there with comments). *)
-From Coq Require Import ZArith List Bool Reals.
-Require Import MV.C07.Model MV.C07.Gen MV.C07.Mesh MV.C07.Proofs_Base MV.C07.Proofs_Findings MV.C07.Proofs.
+   Every statement is spelled out here (it is convertible to the `*_statement` definition of Proofs.v, where the
+   comments explaining each clause live).  Over R: `Rops` is the real-number instance of the operations record.
 
-Theorem C07_definitions : definitions_statement.
+   C07_renumbering_partial: proved for every per-edge / per-face / per-corner / per-cell quantity under vertex
+     renumbering, and for rotating the vertex list of a triangle / quad (+ barycentre of any polygon). MISSING for the
+     full statement: the vertex-indexed accumulations (degree, angle_defects, vertex_normals, faces->vertices
+     interpolation) under vertex renumbering and the fan area of an n-gon (n >= 5) under rotation - those are
+     tested by the correspondence and the oracle only.
+   C07_face_normal_rotation_refuted: a recorded finding (known_findings.d/C07.json). *)
+From Coq Require Import ZArith List Bool Reals.
+Require Import MV.Lib.Base MV.C07.Model MV.C07.Gen MV.C07.Mesh MV.C07.Proofs_Base MV.C07.Proofs_Rigid MV.C07.Proofs_MeshRigid
+  MV.C07.Proofs_Angles MV.C07.Proofs_Interp MV.C07.Proofs_GB MV.C07.Proofs_Renum MV.C07.Proofs_Count MV.C07.Proofs_GBfull
+  MV.C07.Proofs_Findings MV.C07.Proofs_Circum MV.C07.Proofs.
+Import ListNotations.
+Open Scope R_scope.
+
+Theorem C07_definitions :
+  (forall a b : V3, cross a b = (vy a * vz b - vz a * vy b, vz a * vx b - vx a * vz b, vx a * vy b - vy a * vx b)) /\
+  (forall A B : V3, g_edge_length Rops A B =
+       sqrt ((vx B - vx A) * (vx B - vx A) + (vy B - vy A) * (vy B - vy A) + (vz B - vz A) * (vz B - vz A))) /\
+  (forall A B : V3, g_edge_middle Rops A B = ((vx A + vx B) / 2, (vy A + vy B) / 2, (vz A + vz B) / 2)) /\
+  (forall A B C : V3, 0 <= g_triangle_area Rops A B C /\
+       4 * (g_triangle_area Rops A B C * g_triangle_area Rops A B C) = n2 (cross (B -v A) (C -v A))) /\
+  (forall u v : V3, n2 (cross u v) = n2 u * n2 v - dotR u v * dotR u v) /\
+  (forall A B C D : V3, g_quad_area Rops A B C D =
+       ((g_triangle_area Rops A B C + g_triangle_area Rops A C D) + (g_triangle_area Rops B C D + g_triangle_area Rops B D A)) / 2) /\
+  (forall A B C : V3, 0 < n2 (cross (B -v A) (C -v A)) ->
+       g_face_normal Rops A B C = vdiv Rops (cross (B -v A) (C -v A)) (norm Rops (cross (B -v A) (C -v A))) /\
+       n2 (g_face_normal Rops A B C) = 1 /\
+       dotR (g_face_normal Rops A B C) (B -v A) = 0 /\ dotR (g_face_normal Rops A B C) (C -v A) = 0) /\
+  (forall A B C : V3, let p := g_angle3 Rops A B C in
+       fst p = dotR (A -v B) (C -v B) /\ 0 <= snd p /\ snd p * snd p = n2 (cross (A -v B) (C -v B)) /\
+       fst p * fst p + snd p * snd p = n2 (A -v B) * n2 (C -v B)) /\
+  (forall A B C : V3, 0 < n2 (cross (A -v B) (C -v B)) ->
+       g_cotan Rops A B C = dotR (A -v B) (C -v B) / norm Rops (cross (A -v B) (C -v B)) /\
+       g_cotan Rops A B C = g_cotan Rops C B A) /\
+  (forall A B C : V3, g_cot_stride = 3%Z /\
+       g_cot_face Rops A B C = [g_cotan Rops C A B; g_cotan Rops A B C; g_cotan Rops B C A]) /\
+  (forall (k : nat) (first iA iB : Z) (x : R), (k < 2)%nat -> (0 <= iA < 3)%Z -> (0 <= iB < 3)%Z -> iA <> iB ->
+       g_cw_term Rops k x = x / 2 /\
+       exists j, (0 <= j < 3)%Z /\ j <> iA /\ j <> iB /\ g_cw_corner k first iA iB = (first + j)%Z) /\
+  (forall A B C D : V3, 6 * g_cell_volume Rops A B C D = Rabs (dotR (A -v D) (cross (B -v D) (C -v D)))) /\
+  (forall (pi d a : R) (onb zb : bool),
+       g_defect_init Rops pi = 2 * pi /\ g_defect_border Rops false pi = pi /\ g_defect_border Rops true pi = 0 /\
+       g_defect_skip onb zb = (onb && zb)%bool /\ g_defect_step Rops d a = d - a) /\
+  (forall v e f : Z, g_euler v e f = (v - e + f)%Z).
 Proof. exact definitions_proof. Qed.
 Print Assumptions C07_definitions.
 
-Theorem C07_rigid_invariance : rigid_invariance_statement.
+Theorem C07_rigid_invariance :
+  forall (Q : rotation) (t : V3) (m : mesh R), wf_mesh m ->
+  let rg := rigid Q t in let rt := rot Q in let m' := map_mesh rg m in
+  edge_length Rops m' = edge_length Rops m /\
+  edge_middle_point Rops m' = map rg (edge_middle_point Rops m) /\
+  face_area Rops m' = face_area Rops m /\
+  face_normals Rops m' = map rt (face_normals Rops m) /\
+  face_barycenter Rops m' = map rg (face_barycenter Rops m) /\
+  corner_pairs Rops m' = corner_pairs Rops m /\
+  cotangent Rops m' = cotangent Rops m /\
+  cotan_weights Rops m' = cotan_weights Rops m /\
+  degree m' = degree m /\
+  (forall zb pi ang, angle_defects Rops zb pi ang m' = angle_defects Rops zb pi ang m) /\
+  (forall w ang, vertex_normals Rops w ang m' = map rt (vertex_normals Rops w ang m)) /\
+  cell_volume Rops m' = cell_volume Rops m /\
+  cell_barycenter Rops m' = map rg (cell_barycenter Rops m) /\
+  euler_characteristic m' = euler_characteristic m /\
+  (forall n, mean_edge_length Rops m' n = mean_edge_length Rops m n) /\
+  (forall n, mean_face_area Rops m' n = mean_face_area Rops m n) /\
+  (forall n, mean_cell_volume Rops m' n = mean_cell_volume Rops m n) /\
+  total_area Rops m' = total_area Rops m /\
+  (verts m <> [] -> barycenter Rops m' = rg (barycenter Rops m)) /\
+  ((forall F, In F (faces m) ->
+      0 < n2 (cross (P Rops m (znth F 1 0%Z) -v P Rops m (znth F 0 0%Z)) (P Rops m (znth F 2 0%Z) -v P Rops m (znth F 0 0%Z)))) ->
+   face_circumcenter Rops m' = map (omap rg) (face_circumcenter Rops m)).
 Proof. exact rigid_invariance_proof. Qed.
 Print Assumptions C07_rigid_invariance.
 
-Theorem C07_scaling : scaling_statement.
+Theorem C07_scaling :
+  forall s : R, 0 < s -> let sc := scl s in
+  (forall A B, g_edge_length Rops (sc A) (sc B) = s * g_edge_length Rops A B) /\
+  (forall A B, g_edge_middle Rops (sc A) (sc B) = sc (g_edge_middle Rops A B)) /\
+  (forall A B C, g_triangle_area Rops (sc A) (sc B) (sc C) = s * s * g_triangle_area Rops A B C) /\
+  (forall A B C D, g_quad_area Rops (sc A) (sc B) (sc C) (sc D) = s * s * g_quad_area Rops A B C D) /\
+  (forall A B C, g_angle3 Rops (sc A) (sc B) (sc C) = (s * s * fst (g_angle3 Rops A B C), s * s * snd (g_angle3 Rops A B C))) /\
+  (forall A B C, 0 < n2 (cross (A -v B) (C -v B)) -> g_cotan Rops (sc A) (sc B) (sc C) = g_cotan Rops A B C) /\
+  (forall A B C, 0 < n2 (cross (B -v A) (C -v A)) -> g_face_normal Rops (sc A) (sc B) (sc C) = g_face_normal Rops A B C) /\
+  (forall A B C D, g_cell_volume Rops (sc A) (sc B) (sc C) (sc D) = s * s * s * g_cell_volume Rops A B C D) /\
+  (forall l, g_face_bary Rops (map sc l) = sc (g_face_bary Rops l)) /\
+  (forall l, g_cell_bary Rops (map sc l) = sc (g_cell_bary Rops l)) /\
+  (forall l, g_barycenter Rops (map sc l) = sc (g_barycenter Rops l)).
 Proof. exact scaling_proof. Qed.
 Print Assumptions C07_scaling.
 
-Theorem C07_renumbering_partial : renumbering_statement.
+Theorem C07_renumbering_partial :
+  (forall (m m' : mesh R) (sigma : Z -> Z), wf_mesh m ->
+     (forall v, in_rng m v -> P Rops m' (sigma v) = P Rops m v) ->
+     faces m' = map (map sigma) (faces m) -> cells m' = map (map sigma) (cells m) ->
+     edges m' = map (fun e => (sigma (fst e), sigma (snd e))) (edges m) ->
+     edge_length Rops m' = edge_length Rops m /\ edge_middle_point Rops m' = edge_middle_point Rops m /\
+     face_area Rops m' = face_area Rops m /\ face_normals Rops m' = face_normals Rops m /\
+     face_barycenter Rops m' = face_barycenter Rops m /\ corner_pairs Rops m' = corner_pairs Rops m /\
+     cotangent Rops m' = cotangent Rops m /\ cell_volume Rops m' = cell_volume Rops m /\
+     cell_barycenter Rops m' = cell_barycenter Rops m /\ total_area Rops m' = total_area Rops m) /\
+  (* rotating the vertex list of a face *)
+  (forall A B C : V3, g_triangle_area Rops B C A = g_triangle_area Rops A B C /\
+                      g_face_normal Rops B C A = g_face_normal Rops A B C /\
+                      g_cot_face Rops B C A = tl (g_cot_face Rops A B C) ++ [hd 0 (g_cot_face Rops A B C)] /\
+                      g_distance Rops A B = g_distance Rops B A) /\
+  (forall A B C D : V3, g_quad_area Rops B C D A = g_quad_area Rops A B C D) /\
+  (forall a b : list V3, g_face_bary Rops (b ++ a) = g_face_bary Rops (a ++ b)).
 Proof. exact renumbering_proof. Qed.
 Print Assumptions C07_renumbering_partial.
 
-Theorem C07_angle_sum : angle_sum_statement.
+Theorem C07_angle_sum :
+  (forall (m : mesh R) (a b c : Z), face_corner_pairs Rops m [a; b; c]
+      = [g_corner_angle Rops (P Rops m c) (P Rops m a) (P Rops m b);
+         g_corner_angle Rops (P Rops m a) (P Rops m b) (P Rops m c);
+         g_corner_angle Rops (P Rops m b) (P Rops m c) (P Rops m a)]) /\
+  (forall sn cs : R, 0 < sn -> let th := atan2_pair (cs, sn) in
+      0 < th < PI /\ cos th = cs / sqrt (cs * cs + sn * sn) /\ sin th = sn / sqrt (cs * cs + sn * sn)) /\
+  (forall A B C : V3, 0 < n2 (cross (B -v A) (C -v A)) ->
+     let p1 := g_corner_angle Rops C A B in let p2 := g_corner_angle Rops A B C in let p3 := g_corner_angle Rops B C A in
+     (0 < snd p1 /\ 0 < snd p2 /\ 0 < snd p3) /\
+     cmul (cmul (cnormalize p1) (cnormalize p2)) (cnormalize p3) = (-1, 0) /\
+     atan2_pair p1 + atan2_pair p2 + atan2_pair p3 = PI).
 Proof. exact angle_sum_proof. Qed.
 Print Assumptions C07_angle_sum.
 
-Theorem C07_gauss_bonnet : gauss_bonnet_statement.
+Theorem C07_gauss_bonnet :
+  forall m : mesh R, let nV := length (verts m) in
+  manifold (faces m) (edges m) nV ->
+  (forall F, In F (faces m) -> forall v, In v F -> (0 <= v < Z.of_nat nV)%Z) ->
+  (forall a b c, In [a; b; c]%Z (faces m) -> 0 < n2 (cross (P Rops m b -v P Rops m a) (P Rops m c -v P Rops m a))) ->
+  ssum Rops (angle_defects Rops false PI (model_angles m) m) = 2 * PI * IZR (euler_characteristic m).
 Proof. exact gauss_bonnet_proof. Qed.
 Print Assumptions C07_gauss_bonnet.
 
-Theorem C07_interpolate_constant : interpolate_constant_statement.
+Theorem C07_interpolate_constant :
+  forall (m : mesh R) (c : R),
+  let nV := length (verts m) in let nF := length (faces m) in let nC := length (corners (faces m)) in
+  (forall F, In F (faces m) -> F <> [] /\ forall v, In v F -> (0 <= v < Z.of_nat nV)%Z) ->
+  (forall v, (0 <= v < Z.of_nat nV)%Z -> exists F, In F (faces m) /\ In v F) ->
+  interpolate_vertices_to_faces Rops 0 Rplus (smul_l Rops) Rdiv m (repeat c nV) = repeat c nF /\
+  (forall w area ang, w <> WSum ->
+     (forall f, (0 <= f < Z.of_nat nF)%Z -> 0 < znth area f 0) -> (forall k, (0 <= k < Z.of_nat nC)%Z -> 0 < znth ang k 0) ->
+     interpolate_faces_to_vertices Rops 0 Rplus (smul_l Rops) Rdiv w area ang m (repeat c nF) = repeat c nV) /\
+  (forall w ang, w = WUniform \/ w = WAngle -> (forall k, (0 <= k < Z.of_nat nC)%Z -> 0 < znth ang k 0) ->
+     average_corners_to_vertices Rops 0 Rplus (smul_l Rops) Rdiv w ang m (repeat c nC) = Some (repeat c nV)) /\
+  scatter_vertices_to_corners 0 m (repeat c nV) = repeat c nC /\
+  scatter_faces_to_corners 0 m (repeat c nF) = repeat c nC.
 Proof. exact interpolate_constant_proof. Qed.
 Print Assumptions C07_interpolate_constant.
 
-Theorem C07_face_normal_rotation_refuted : face_normal_rotation_refuted_statement.
+Theorem C07_circumcenter :
+  forall A B C c : V3, 0 < n2 (cross (B -v A) (C -v A)) -> g_circumcenter Rops A B C = Some c ->
+  n2 (c -v A) = n2 (c -v B) /\ n2 (c -v A) = n2 (c -v C) /\ dotR (cross (B -v A) (C -v A)) (c -v A) = 0.
+Proof. exact circumcenter_proof. Qed.
+Print Assumptions C07_circumcenter.
+
+Theorem C07_face_normal_rotation_refuted :
+  exists A B C D : V3,
+    0 < n2 (cross (B -v A) (C -v A)) /\ 0 < n2 (cross (C -v B) (D -v B)) /\
+    g_face_normal Rops A B C <> g_face_normal Rops B C D.
 Proof. exact face_normal_rotation_refuted. Qed.
 Print Assumptions C07_face_normal_rotation_refuted.
+
